@@ -913,10 +913,18 @@ func runCase(c reg.Case, out *reg.Out) {
 				out.Cov("foreign.hook." + rt.hook)
 			}
 		}
-		// (a) direct: a hook call for r attributed to a peer that is not r's
+		// (a) direct: a hook call for r attributed to a peer that is not r's.  If r had already ended
+		// before this message was processed, that is the known finding (the manager no longer knows
+		// whom the ended request belonged to and reports late responses to the hooks: e8dd457);
+		// for a request in progress it is a violation.
 		for _, h := range full[i].hooks {
 			if p, known := owner[h.r]; known && p != h.p && i > newAt[h.r] {
-				out.Fail("c09-hook", "op %d: response hook called for request %d (sent to peer %d) with a response from peer %d", i, h.r, p, h.p)
+				if endedBefore(full, i, h.r) {
+					out.Cov("foreign.after-end.hook")
+					out.Fail("hook-after-request-ended", "op %d: request %d (sent to peer %d) had already ended; a response from peer %d carrying its ID still reaches the response hook", i, h.r, p, h.p)
+				} else {
+					out.Fail("c09-hook", "op %d: response hook called for request %d (sent to peer %d) with a response from peer %d", i, h.r, p, h.p)
+				}
 			}
 		}
 	}
@@ -951,6 +959,11 @@ func runCase(c reg.Case, out *reg.Out) {
 				continue
 			}
 			a, b := full[i].view(r, opReq(c.Ops[i])), ref[i].view(r, opReq(c.Ops[i]))
+			if a != b && endedBefore(full, i, r) && stripLate(a, owner[r]) == b {
+				// only the hook call and the update sent back to that sender, for an ended request:
+				// the known finding, already reported by (a)
+				continue
+			}
 			if a != b {
 				cls := "c09-effect"
 				switch {
@@ -964,6 +977,31 @@ func runCase(c reg.Case, out *reg.Out) {
 			}
 		}
 	}
+}
+
+// endedBefore: request r is not in the manager's table when op i starts (it was created earlier)
+func endedBefore(full []*obs, i, r int) bool {
+	if i == 0 || full[i-1].res == "bad-op" {
+		return false
+	}
+	_, present := full[i-1].state[r]
+	return !present
+}
+
+// stripLate removes from a view the hook calls attributed to peers other than owner and the update
+// messages sent to such peers
+func stripLate(v string, owner int) string {
+	var ps []string
+	for _, f := range strings.Fields(v) {
+		if strings.HasPrefix(f, "hook:") && !strings.HasPrefix(f, fmt.Sprintf("hook:%d.", owner)) {
+			continue
+		}
+		if strings.HasPrefix(f, "out:") && strings.HasSuffix(f, ".u") && f != fmt.Sprintf("out:%d.u", owner) {
+			continue
+		}
+		ps = append(ps, f)
+	}
+	return strings.Join(ps, " ")
 }
 
 func partsWith(v, prefix string) string {
